@@ -6,27 +6,58 @@ OUT: [{"op":"load.file","kind":..,"nc":[..]}, ..., {"op":"load.done"}, {call op 
 """
 from __future__ import annotations
 
+import builtins
+import io
 import json
+import os
 import pathlib
 import sys
 
 _events = []
-_orig_open = pathlib.Path.open
+_orig_path_open = pathlib.Path.open
+_orig_io_open = io.open
+_orig_builtin_open = builtins.open
+_inside = [0]
 
 
-def _open(self, *a, **kw):
-    parent = self.parent.name
-    if self.suffix == ".json" and parent.endswith("_registry"):
+def _note(path) -> None:
+    try:
+        p = pathlib.Path(os.fspath(path))
+    except TypeError:
+        return
+    parent = p.parent.name
+    if p.suffix == ".json" and parent.endswith("_registry"):
         kind = parent[: -len("_registry")]
         if kind in ("iban", "bank"):
-            _events.append({"op": "load.file", "kind": kind, "nc": [ord(c) for c in self.name]})
-    return _orig_open(self, *a, **kw)
+            _events.append({"op": "load.file", "kind": kind, "nc": [ord(c) for c in p.name]})
 
 
-pathlib.Path.open = _open
+def _path_open(self, *a, **kw):
+    # Path.open goes on to io.open: count the read once
+    if not _inside[0]:
+        _note(self)
+    _inside[0] += 1
+    try:
+        return _orig_path_open(self, *a, **kw)
+    finally:
+        _inside[0] -= 1
+
+
+def _plain_open(file, *a, **kw):
+    if not _inside[0]:
+        _note(file)
+    return _orig_io_open(file, *a, **kw)
+
+
+# whichever way the package opens its registry files (Path.open, read_text, open(), io.open)
+pathlib.Path.open = _path_open
+io.open = _plain_open
+builtins.open = _plain_open
 import probe  # noqa: E402  (imports schwifty: the load phase happens here)
 
-pathlib.Path.open = _orig_open
+pathlib.Path.open = _orig_path_open
+io.open = _orig_io_open
+builtins.open = _orig_builtin_open
 _events.append({"op": "load.done"})
 
 
